@@ -4493,7 +4493,7 @@ def jr2(m, run, rule='JR2.dictionary-round-trip-on-real-classes'):
     from .skel import Sym
     from .poly import Poly
     cases = (('crv', 'Curve', (2,), (4,)), ('surf', 'Surface', (2, 1), (3, 4)), ('vol', 'Volume', (1, 2, 1), (2, 3, 2)))
-    for tag, cname, degs, sizes in cases:
+    for tag, cname, degs, sizes, mod in [c_ + ('NURBS',) for c_ in cases] + [c_ + ('BSpline',) for c_ in cases]:
         pdim = len(degs)
         total = 1
         for s_ in sizes:
@@ -4506,25 +4506,26 @@ def jr2(m, run, rule='JR2.dictionary-round-trip-on-real-classes'):
         key = '_exchange.export_dict_%s -> import_dict_%s' % (tag, tag)
         why = None
         try:
-            src = sk.apply(('class', ('NURBS', cname)), [], {}, None)
-            Pw = [[Sym('P%d_%d' % (i, c)) for c in range(4)] for i in range(total)]
+            src = sk.apply(('class', (mod, cname)), [], {}, None)
+            # (a B-spline shape is exported without weights and comes back as a rational shape with unit weights)
+            Pw = [[Sym('P%d_%d' % (i, c)) for c in range(4)] for i in range(total)] if mod == 'NURBS' else [[Sym('P%d_%d' % (i, c)) for c in range(3)] + [Sym(Poly.const(1))] for i in range(total)]
             suffix = [''] if pdim == 1 else ['_' + 'uvw'[d] for d in range(pdim)]
 
             def setp(obj, name, value):
                 fi_ = m.lookup(obj._cls, name, 'setters')
                 if fi_ is None:
-                    raise AnalysisError('%s: no setter %s on NURBS.%s' % (key, name, cname))
+                    raise AnalysisError('%s: no setter %s on %s.%s' % (key, name, mod, cname))
                 sk.call(fi_, [obj, value], {})
 
             def getp(obj, name):
                 fi_ = m.lookup(obj._cls, name, 'getters')
                 if fi_ is None:
-                    raise AnalysisError('%s: no getter %s on NURBS.%s' % (key, name, cname))
+                    raise AnalysisError('%s: no getter %s on %s.%s' % (key, name, mod, cname))
                 return sk.call(fi_, [obj], {})
             for d in range(pdim):
                 setp(src, 'degree' + suffix[d], degs[d])
             sc_ = m.lookup(src._cls, 'set_ctrlpts', 'methods')
-            sk.call(sc_, [src, [list(p_) for p_ in Pw]] + (list(sizes) if pdim > 1 else []), {})
+            sk.call(sc_, [src, [list(p_) if mod == 'NURBS' else list(p_[:3]) for p_ in Pw]] + (list(sizes) if pdim > 1 else []), {})
             ranks = [[0] * (p + 1) + list(range(1, n - p)) + [n - p] * (p + 1) for p, n in zip(degs, sizes)]
             for d in range(pdim):
                 setp(src, 'knotvector' + suffix[d], [Ord(r) for r in ranks[d]])
@@ -4614,7 +4615,7 @@ def jr2(m, run, rule='JR2.dictionary-round-trip-on-real-classes'):
             why = '%s %s' % (v.msg, v.where())
         except Unsupported as ex:
             raise AnalysisError('%s: interpreter met an unsupported construct: %s' % (key, ex))
-        run.ob(rule, key + ' :: NURBS.%s' % cname, why is None, 'degrees, sizes, knots, homogeneous points (exact), delta, id come back unchanged' if why is None else why,
+        run.ob(rule, key + ' :: %s.%s' % (mod, cname), why is None, 'degrees, sizes, knots, homogeneous points (exact), delta, id come back unchanged' if why is None else why,
                'geomdl/_exchange.py in _exchange.export_dict_%s / import_dict_%s' % (tag, tag))
 
 
@@ -5442,3 +5443,134 @@ def cs2(m, run, rule='CS2.construction-from-sections-on-real-classes'):
                     raise AnalysisError('%s: interpreter met an unsupported construct: %s' % (key, ex))
                 run.ob(rule, key, why is None, 'degrees, knots, sizes per direction; every control point and weight is the section point the stacking prescribes' if why is None else why,
                        'geomdl/construct.py:%d in %s' % (fi.node.lineno, fi.key))
+
+
+# ====================================================================================== C14: smesh / vmesh text round trip on real classes
+def sm2(m, run, rule='SM2.mesh-file-round-trip-on-real-classes'):
+    """SM2: exchange.export_smesh / export_vmesh interpreted in text mode on a rational surface (non-square, different degrees) and volume
+    (three different sizes) built by the classes' own constructors and setters - homogeneous control points exact symbolic, knots order
+    tokens; an abstract number prints as a label that reads back as the same number - with the file written kept in memory;
+    the text has the documented records (dimension; degrees; sizes; one knot vector per line; one record (x, y, z, w) = (Pw / w, w) per
+    control point with u varying first, then v, then w; a closing 1), and _exchange.import_surf_mesh / import_vol_mesh interpreted on it give back the shape: the imported shape has the degrees, sizes, knot
+    vectors and homogeneous control points (exact, position by position) of the exported one.  The same for a B-spline source (unit
+    weights) and for a container of two shapes (one numbered file each, each file holding its own shape only)"""
+    from .skel import Sym
+    from .poly import Poly
+    for tag, cname, degs, sizes, exp, imp in (('smesh', 'Surface', (2, 1), (3, 4), 'exchange.export_smesh', '_exchange.import_surf_mesh'),
+                                              ('vmesh', 'Volume', (1, 2, 1), (2, 4, 3), 'exchange.export_vmesh', '_exchange.import_vol_mesh')):
+        pdim = len(degs)
+        total = 1
+        for s_ in sizes:
+            total *= s_
+        for mod, multi in (('NURBS', False), ('BSpline', False), ('NURBS', True)):
+            key = '%s -> %s :: %s%s.%s' % (exp, imp, 'a container of two ' if multi else '', mod, cname)
+            files = {}
+            ab = dict(STD_ABSTRACTED)
+            ab[('knotvector', 'normalize')] = Py(lambda sk, node, kv, *a, **k: [Ord(x.rank) for x in kv], 'knotvector.normalize')
+            ab[('_exchange', 'write_file')] = Py(lambda sk, node, name, content, **k: files.__setitem__(name, content) or True, 'write_file')
+            ab[('_exchange', 'read_file')] = Py(lambda sk, node, name, **k: files[name], 'read_file')
+            sk = SK(m, ab)
+            sk.exact = True
+            sk.text = True
+            sk.construct = True
+            why = None
+            def file_format(sk, text, Pw):
+                """the documented layout: dimension / degrees / sizes / one knot vector per line / one (x, y, z, w) record per control
+                point, u varying first, then v (then w) / a closing 1"""
+                from .skel import _float
+                lines = [ln.split() for ln in text.split('\n')]
+                if len(lines) < 3 + pdim + total + 1:
+                    return 'the file has %d lines; dimension, degrees, sizes, %d knot vectors, %d points and the closing flag are %d' % (len(lines), pdim, total, 3 + pdim + total + 1)
+                if lines[0] != ['3']:
+                    return 'record 0 is %r, the format has the dimension (3) there' % ' '.join(lines[0])
+                if lines[1] != [str(p_) for p_ in degs]:
+                    return 'record 1 is %r, the format has the degrees %s there' % (' '.join(lines[1]), ' '.join(str(p_) for p_ in degs))
+                if lines[2] != [str(n_) for n_ in sizes]:
+                    return 'record 2 is %r, the format has the sizes %s there' % (' '.join(lines[2]), ' '.join(str(n_) for n_ in sizes))
+                for d in range(pdim):
+                    got = [getattr(_float(sk, None, t_), 'rank', None) for t_ in lines[3 + d]]
+                    if got != [10 * d + r for r in ranks[d]]:
+                        return 'record %d does not hold the knot vector of direction %s' % (3 + d, 'uvw'[d])
+                su, sv = sizes[0], sizes[1]
+                for k in range(total):
+                    rec = lines[3 + pdim + k]
+                    w_, r_ = divmod(k, su * sv)
+                    idx = (r_ // su) + sv * (r_ % su) + su * sv * w_
+                    if len(rec) != 4:
+                        return 'point record %d has %d fields, the format stores (x, y, z, w)' % (k, len(rec))
+                    for c in range(4):
+                        v_ = _as_sym(_float(sk, None, rec[c]))
+                        want = Sym(Pw[idx][c], Pw[idx][3]) if c < 3 else Sym(Pw[idx][3])
+                        if v_ is None or not v_.same(want):
+                            return 'point record %d (u = %d, v = %d%s) field %d holds %r; the format stores (x, y, z, w) of that control point, u varying first: %r' % (
+                                k, r_ % su, r_ // su, ', w = %d' % w_ if pdim == 3 else '', c, v_, want)
+                if lines[3 + pdim + total] != ['1']:
+                    return 'the closing record is %r, the format ends with 1' % ' '.join(lines[3 + pdim + total])
+                if any(ln for ln in lines[3 + pdim + total + 1:]):
+                    return 'the file goes on after the closing record (%d more non-empty lines)' % sum(1 for ln in lines[3 + pdim + total + 1:] if ln)
+                return None
+            try:
+                sfx = ['_' + 'uvw'[d] for d in range(pdim)]
+                ranks = [[0] * (p + 1) + list(range(1, n - p)) + [n - p] * (p + 1) for p, n in zip(degs, sizes)]
+
+                def build(lab):
+                    src = sk.apply(('class', (mod, cname)), [], {}, None)
+                    for d in range(pdim):
+                        sk.call(m.lookup(src._cls, 'degree' + sfx[d], 'setters'), [src, degs[d]], {})
+                    if mod == 'NURBS':
+                        Pw = [[Poly.atom('%s%d_%d' % (lab, i, c)) for c in range(4)] for i in range(total)]
+                    else:
+                        Pw = [[Poly.atom('%s%d_%d' % (lab, i, c)) for c in range(3)] + [Poly.const(1)] for i in range(total)]
+                    rows = [[Sym(x) for x in (r if mod == 'NURBS' else r[:3])] for r in Pw]
+                    sk.call(m.lookup(src._cls, 'set_ctrlpts', 'methods'), [src, rows] + list(sizes), {})
+                    for d in range(pdim):
+                        sk.call(m.lookup(src._cls, 'knotvector' + sfx[d], 'setters'), [src, [Ord(10 * d + r) for r in ranks[d]]], {})
+                    return src, Pw
+                if multi:
+                    srcs = [build('A'), build('B')]
+                    arg = sk.apply(('class', ('multi', cname + 'Container')), [x[0] for x in srcs], {}, None)
+                    names = ['mesh.1.txt', 'mesh.2.txt']
+                else:
+                    srcs = [build('P')]
+                    arg = srcs[0][0]
+                    names = ['mesh.txt']
+                sk.call(m.func(exp), [arg, 'mesh.txt'], {})
+                if sorted(files) != names or not all(isinstance(files[k_], str) for k_ in names):
+                    why = 'the exporter writes %r; expected %r' % (sorted(files), names)
+                for fname_, (src, Pw) in zip(names, srcs):
+                    if why:
+                        break
+                    why = file_format(sk, files[fname_], Pw)
+                    if why:
+                        why = 'file %s: %s' % (fname_, why)
+                        break
+                    back = sk.call(m.func(imp), [fname_], {})
+                    b = back._a if isinstance(back, Bag) else {}
+                    pre = 'file %s: ' % fname_ if multi else ''
+                    if not isinstance(back, Bag) or back is src:
+                        why = pre + 'the importer does not return a new shape'
+                    elif list(b.get('_degree', [])) != list(degs):
+                        why = pre + 'degrees come back as %s, exported %s' % (list(b.get('_degree', [])), list(degs))
+                    elif list(b.get('_control_points_size', [])) != list(sizes):
+                        why = pre + 'sizes come back as %s, exported %s' % (list(b.get('_control_points_size', [])), list(sizes))
+                    elif [[getattr(k, 'rank', None) for k in kv] for kv in b.get('_knot_vector', [])] != [[10 * d + r for r in ranks[d]] for d in range(pdim)]:
+                        why = pre + 'the knot vectors do not come back in their own directions'
+                    else:
+                        cp = b.get('_control_points', [])
+                        if len(cp) != total:
+                            why = pre + '%d control points come back, %d were exported' % (len(cp), total)
+                        for i in range(total):
+                            if why:
+                                break
+                            for c in range(4):
+                                s_ = _as_sym(cp[i][c]) if len(cp[i]) > c else None
+                                if s_ is None or not s_.same(Sym(Pw[i][c])):
+                                    why = pre + 'homogeneous control point %d slot %d comes back as %s, exported %r' % (i, c, repr(cp[i][c])[:90] if len(cp[i]) > c else 'nothing', Pw[i][c])
+                                    break
+            except Violation as v:
+                why = '%s %s' % (v.msg, v.where())
+            except Unsupported as ex:
+                raise AnalysisError('%s: interpreter met an unsupported construct: %s' % (key, ex))
+            fe = m.func(exp)
+            run.ob(rule, key, why is None, 'degrees, sizes, knot vectors and homogeneous control points come back exactly, position by position' if why is None else why,
+                   'geomdl/exchange.py:%d in %s' % (fe.node.lineno, fe.key))
